@@ -40,10 +40,15 @@ def make_db(kind, d, FSM):
     from zv import objs
     if kind == 'file':
         st = FSM.FileStorage(d + '/Data.fs')
+    elif kind == 'file-blobs':
+        st = FSM.FileStorage(d + '/Data.fs', blob_dir=d + '/blobs')
     elif kind == 'mapping':
         st = ZODB.MappingStorage.MappingStorage()
     elif kind == 'demo':
         st = ZODB.DemoStorage.DemoStorage()
+    elif kind == 'demo-based':
+        # every object lives in the base: the first change of each one through the demo storage has its predecessor down there
+        st = ZODB.MappingStorage.MappingStorage()
     else:
         st = ZODB.DemoStorage.DemoStorage(base=ZODB.MappingStorage.MappingStorage(), changes=FSM.FileStorage(d + '/Ch.fs'))
     db = ZODB.DB(st)
@@ -51,7 +56,17 @@ def make_db(kind, d, FSM):
         for i in range(NCELL):
             c.root()['c%d' % i] = objs.Plain()
         c.root()['counter'] = objs.Counter(0)
-    if kind in ('file',):
+    if kind == 'demo-based':
+        # (the first DB is left open: closing it would close the mapping storage that now serves as the base)
+        db = ZODB.DB(ZODB.DemoStorage.DemoStorage(base=st, changes=FSM.FileStorage(d + '/Ch.fs')))
+    if kind == 'file-blobs':
+        # a blob that is garbage when the world starts: a pack removes its directory, and the directory levels that empties
+        from ZODB.blob import Blob
+        with db.transaction() as c:
+            c.root()['gb'] = Blob(b'garbage blob')
+        with db.transaction() as c:
+            del c.root()['gb']
+    if kind in ('file', 'file-blobs'):
         for k in range(2):          # a little history so that a pack has something to free
             with db.transaction() as c:
                 for i in range(NCELL):
@@ -81,6 +96,23 @@ class NoVoter:
     tpc_begin = commit = tpc_finish = tpc_abort = abort
 
 
+def rerun_on_watchdog(fn):
+    """Deadlock and livelock are decided on scheduler state.  The 60 s wall-clock watchdog around a world is only a guard: when
+    it fires and nothing else was found, the same (deterministic) world is run once more; only a hang that shows again is reported."""
+    import functools
+
+    @functools.wraps(fn)
+    def w(*a, **k):
+        out = fn(*a, **k)
+        if [f[0] for f in out.get('sched', [])] == ['watchdog']:
+            out2 = fn(*a, **k)
+            out2['watchdog_reruns'] = 1
+            return out2
+        return out
+    return w
+
+
+@rerun_on_watchdog
 def run_schedule(seed, kind, strategy, scratch, park=None, stick=0.9, pct_depth=2, packer=False, lines=True, collect_locs=False,
                  force_undo=False):
     """one world, one schedule -> dict(c02=[...], c03=[...], sched failures, stats)"""
@@ -246,6 +278,51 @@ def run_schedule(seed, kind, strategy, scratch, park=None, stick=0.9, pct_depth=
                     c = db.open(tm)
             c.close()
         return f
+    def hreader(name, n):
+        # historical connections: at the last transaction (always allowed) and at "now" (allowed only when no id can still be
+        # handed out below that point, e.g. under a stalled clock); whatever is allowed must show exactly the revisions at its point
+        from ZODB.utils import newTid
+        rnd = random.Random(seed * 13 + 5)
+
+        def f():
+            for k in range(n):
+                rec = dict(client=name, kind='h', reads=[], outcome=None)
+                rec['b'] = s.log('boundary', name)
+                how = rnd.choice(['at-last', 'now', 'now'])
+                tm = transaction.TransactionManager()
+                try:
+                    if how == 'at-last':
+                        last = db.lastTransaction()
+                        rec['before'] = p64(u64(last) + 1)
+                        c = db.open(tm, at=last)
+                    else:
+                        rec['before'] = newTid(db.lastTransaction())
+                        c = db.open(tm, before=rec['before'])
+                except ValueError:
+                    rec['outcome'] = 'refused'
+                    txlog.append(rec)
+                    s.yield_point('app')
+                    continue
+                try:
+                    tm.begin()
+                    r = c.root()
+                    order = list(range(NCELL)) * 2
+                    rnd.shuffle(order)
+                    for i in order:
+                        cell = r['c%d' % i]
+                        if rnd.random() < 0.5:
+                            cell._p_deactivate()
+                        tok = cell.tok
+                        rec['reads'].append((cell._p_oid, cell._p_serial, tok))
+                        s.yield_point('app')
+                    rec['outcome'] = 'ok'
+                except Exception as e:
+                    rec['outcome'] = type(e).__name__
+                    reader_errors.append((name, type(e).__name__, repr(e)[:160], rec['b']))
+                tm.abort()
+                c.close()
+                txlog.append(rec)
+        return f
     undo_tids = []
 
     def undoer():
@@ -287,6 +364,8 @@ def run_schedule(seed, kind, strategy, scratch, park=None, stick=0.9, pct_depth=
     s.spawn('r0', reader('r0', 4))
     if wrnd.random() < 0.4:
         s.spawn('r1', reader('r1', 3))
+    if random.Random(seed * 17 + 3).random() < 0.5:
+        s.spawn('h', hreader('h', 3))
     if packer:
         s.spawn('p', packer_f)
     with_undo = kind in ('file', 'demo-file') and (wrnd.random() < 0.5 or force_undo)
@@ -298,7 +377,8 @@ def run_schedule(seed, kind, strategy, scratch, park=None, stick=0.9, pct_depth=
         fails.append(('watchdog', 60))
     out = {'c02': [], 'c03': [], 'sched': fails, 'pack': pres, 'switches': s.switches, 'decisions': len(s.trace), 'digest': s.digest(),
            'locs': dict(s.locs) if collect_locs else None, 'overlap': 0, 'ok_commits': 0, 'conflicts': 0, 'reader_txns': 0, 'undos': 0,
-           'vote_failures': len([t for t in txlog if t.get('outcome') == 'VoteNo']), 'stalled_clock': stalled}
+           'vote_failures': len([t for t in txlog if t.get('outcome') == 'VoteNo']), 'stalled_clock': stalled,
+           'historical_refused': len([t for t in txlog if t['kind'] == 'h' and t['outcome'] == 'refused'])}
     if fails:
         # the world may hold locks for ever: do not touch it again
         return out
@@ -386,6 +466,16 @@ def run_schedule(seed, kind, strategy, scratch, park=None, stick=0.9, pct_depth=
             if nxt is not None:
                 hi = nxt if hi is None else min(hi, nxt)
         if bad:
+            continue
+        if t['kind'] == 'h':
+            out['historical_txns'] = out.get('historical_txns', 0) + 1
+            for (oid, serial, tok) in t['reads']:
+                below = [tid for (tid, tk, b) in hist[oid] if tid < t['before']]
+                if below and below[-1] != serial and not (packer and serial <= pack_tid):
+                    v2.append(('historical-read-differs-from-the-revision-at-its-point', u64(t['before']), oid_name[oid], u64(serial), u64(below[-1])))
+                    break
+            if hi is not None and not (lo < hi):
+                v2.append(('inconsistent-snapshot', t['client'], [(oid_name[o], u64(a), tk) for o, a, tk in t['reads']]))
             continue
         L = max([tid for (ret, tid) in commits if ret < t['b']] or [z64])
         if any(t['b'] < ret for (ret, tid) in commits):
